@@ -26,6 +26,13 @@
 
 using namespace vrt;
 
+#if VRT_TSAN
+// Formal (memory-model) race inside tbbmalloc, reported to the coordinator: Block::shareOrphaned waits for the foreign freeing thread with a
+// relaxed load of nextPrivatizable, so the store in Bin::addPublicFreeListBlock is not ordered before the later re-use of the slab header by
+// OrphanedBlocks::cleanup -> Backend::coalescAndPutList. Same word, coherence-ordered, no observable effect on x86. Only reports whose stacks
+// contain addPublicFreeListBlock are silenced.
+extern "C" const char* __tsan_default_suppressions() { return "race:rml::internal::Bin::addPublicFreeListBlock\n"; }
+#endif
 #if VRT_ASAN
 // vrt's per-thread hook records are "never freed" by design; the records of exited threads would be reported at exit.
 extern "C" const char* __lsan_default_suppressions() { return "leak:vrt::hook_thread\n"; }
@@ -610,6 +617,7 @@ static void generate(Scen& s, int cpus, long force_threads, long force_profile, 
     s.one_size = (size_t)r.pick(classes);
     bool heavy = s.profile == P_LARGE || s.profile == P_LARGEBIN || s.profile == P_ALL || s.profile == P_TABLE;
     s.nops = heavy ? 60 + (int)r.below(400) : 150 + (int)r.below(r.chance(1, 5) ? 3000 : 900);
+    if (VRT_TSAN) s.nops = 40 + s.nops / 3;
     s.drain = r.chance(1, 3);
     s.spawn = !r.chance(1, 4);
     switch (r.below(5)) {
